@@ -34,25 +34,26 @@ type Track struct {
 }
 
 type Scenario struct {
-	Channels   []string `json:"channels"`
-	Tracks     []Track  `json:"tracks"`
-	Auth       bool     `json:"auth"`
-	RepCfg     bool     `json:"repcfg"`
-	Sequential bool     `json:"sequential"`
-	Rounds     int      `json:"rounds"`
-	Register   int      `json:"register,omitempty"`
-	Receiving  int      `json:"receiving,omitempty"`
-	Gated      bool     `json:"gated,omitempty"`
-	Backlog    bool     `json:"backlog,omitempty"`
-	Feed       int      `json:"feed,omitempty"`
-	Restart    bool     `json:"restart,omitempty"`
-	LastRound  int      `json:"lastround,omitempty"`
-	Raw        bool     `json:"raw,omitempty"`
-	StartReg   bool     `json:"startreg,omitempty"`
-	OpenStart  bool     `json:"openstart,omitempty"`
-	LateFirst  bool     `json:"latefirst,omitempty"`
-	Overlap    bool     `json:"overlap,omitempty"`
-	ReInit     bool     `json:"reinit,omitempty"`
+	Channels   []string    `json:"channels"`
+	Tracks     []Track     `json:"tracks"`
+	Auth       bool        `json:"auth"`
+	RepCfg     bool        `json:"repcfg"`
+	Sequential bool        `json:"sequential"`
+	Rounds     int         `json:"rounds"`
+	Register   int         `json:"register,omitempty"`
+	Receiving  int         `json:"receiving,omitempty"`
+	Gated      bool        `json:"gated,omitempty"`
+	Backlog    bool        `json:"backlog,omitempty"`
+	Feed       int         `json:"feed,omitempty"`
+	Restart    bool        `json:"restart,omitempty"`
+	LastRound  int         `json:"lastround,omitempty"`
+	Collide    [][2]string `json:"collide,omitempty"`
+	Raw        bool        `json:"raw,omitempty"`
+	StartReg   bool        `json:"startreg,omitempty"`
+	OpenStart  bool        `json:"openstart,omitempty"`
+	LateFirst  bool        `json:"latefirst,omitempty"`
+	Overlap    bool        `json:"overlap,omitempty"`
+	ReInit     bool        `json:"reinit,omitempty"`
 }
 
 type Outcome struct {
@@ -211,6 +212,23 @@ func scenarios(c *lib.Ctx, rng *rand.Rand) []Scenario {
 	for _, n := range []int{2, 5, 8} {
 		scs = append(scs, Scenario{Channels: []string{"lr"}, Tracks: oneVideoTracks(n), LastRound: 1, Rounds: rounds / 2})
 		scs = append(scs, Scenario{Channels: []string{"lrp"}, Tracks: oneVideoTracks(n), LastRound: 2, Rounds: rounds / 2})
+	}
+	// channel and track names with separator characters whose concatenations coincide; first uploads after a
+	// restart are media segments
+	for _, ps := range [][][2]string{
+		{{"studio", "1_video"}, {"studio_1", "video"}},
+		{{"a-b", "c"}, {"a", "b-c"}, {"a_b", "c"}, {"a", "b_c"}},
+		{{"x.y", "z"}, {"x", "y.z"}, {"x", "y_z"}, {"x_y", "z"}, {"xy", "z"}, {"x", "yz"}},
+	} {
+		var chs []string
+		seen := map[string]bool{}
+		for _, p := range ps {
+			if !seen[p[0]] {
+				seen[p[0]] = true
+				chs = append(chs, p[0])
+			}
+		}
+		scs = append(scs, Scenario{Channels: chs, Tracks: oneVideoTracks(1), Collide: ps, Rounds: rounds / 2})
 	}
 	// more messages outstanding than the channel's queue holds while the channel goroutine waits for the MPD mutex
 	for _, n := range []int{6, 8} {
@@ -542,6 +560,30 @@ func run(c *lib.Ctx) error {
 		nUp := 2 * len(sc.Channels) * len(sc.Tracks)
 		if sc.Backlog {
 			nUp = 6 * len(sc.Tracks)
+		}
+		if len(sc.Collide) > 0 {
+			if o.Statuses["200"] != 4*len(sc.Collide) {
+				c.Fail(id, "upload-refused", fmt.Sprintf("statuses %v for %d uploads to channels and tracks whose names contain separator characters", o.Statuses, 4*len(sc.Collide)), sc)
+				continue
+			}
+			bad := false
+			for k, p := range sc.Collide {
+				for _, nr := range []int{1, 2 + k, 12 + k} {
+					want := fmt.Sprintf("%s/%d%s", p[1], nr, sc.Tracks[0].Ext)
+					found := false
+					for _, f := range o.Files[p[0]] {
+						found = found || f == want
+					}
+					if !found && !bad {
+						bad = true
+						c.Fail(id, "upload-lost", fmt.Sprintf("channel %s: %s is not stored; stored: %v", p[0], want, o.Files[p[0]]), sc)
+					}
+				}
+			}
+			if r, ok := ref[o.Scenario+1]; ok && !bad && !sc.Sequential && fmt.Sprint(o.Files) != fmt.Sprint(r.Files) {
+				c.Fail(id, "files-differ-from-sequential", fmt.Sprintf("stored %v, the sequential run %v", o.Files, r.Files), sc)
+			}
+			continue
 		}
 		if sc.LastRound > 0 {
 			nUp = 5*len(sc.Tracks) + 1
